@@ -22,6 +22,7 @@ import SvModel.Properties.History
 import SvModel.Properties.CtorProps
 import SvModel.Proofs.SysInv
 import SvModel.Proofs.CopyAssign
+import SvModel.Proofs.SwapSys
 import SvModel.Api
 
 namespace SvModel.System
@@ -34,6 +35,7 @@ inductive MOp (α : Type) where
   | dtor (c : Nat)
   | on (c : Nat) (op : SOp α)
   | copyAssign (c o : Nat)                   -- c = o (operator= / assign (const small_vector&)), equal or non-propagating allocators
+  | swap (c o : Nat)                         -- c.swap (o), same type; allocators equal or propagating on swap
 
 structure St (α : Type) where
   w : World α
@@ -45,6 +47,8 @@ def MOp.valid (cfg : Cfg) (U : List Nat) (s : St α) : MOp α → Prop
   | .dtor c => c ∈ s.A
   | .on c op => c ∈ s.A ∧ op.valid (s.w.hdr c).size
   | .copyAssign c o => c ∈ s.A ∧ o ∈ s.A ∧ o ≠ c ∧ ((s.w.hdr o).alloc = (s.w.hdr c).alloc ∨ cfg.pocca = false)
+  | .swap c o => c ∈ s.A ∧ o ∈ s.A ∧ c ≠ o ∧ (s.w.hdr c).N = (s.w.hdr o).N ∧
+      ((s.w.hdr c).N = 0 → (s.w.hdr c).inl = (s.w.hdr o).inl) ∧ SwapAllocOK cfg s.w c o
 
 def MOp.run (cfg : Cfg) (w : World α) : MOp α → M α Unit
   | .ctorVals c a vs => ctorFill cfg c a true (vs.map Src.ext)
@@ -52,6 +56,7 @@ def MOp.run (cfg : Cfg) (w : World α) : MOp α → M α Unit
   | .dtor c => SvModel.dtor cfg c
   | .on c op => op.run cfg c w
   | .copyAssign c o => SvModel.copyAssign cfg c o
+  | .swap c o => SvModel.swap cfg c o
 
 /-- one call: install the fault list, run; a constructor that returns adds its container, a destructor removes it -/
 def step (cfg : Cfg) (s : St α) (x : MOp α × List Nat) : St α :=
@@ -61,7 +66,7 @@ def step (cfg : Cfg) (s : St α) (x : MOp α × List Nat) : St α :=
       { w := w', A := match x.1 with
                      | .ctorVals c _ _ | .ctorCopy c _ _ => c :: s.A
                      | .dtor c => s.A.filter (· ≠ c)
-                     | .on _ _ | .copyAssign _ _ => s.A }
+                     | .on _ _ | .copyAssign _ _ | .swap _ _ => s.A }
   | .thrown _ w' => { w := w', A := s.A }
 
 def run (cfg : Cfg) : St α → List (MOp α × List Nat) → St α
@@ -164,6 +169,14 @@ theorem step_sys (cfg : Cfg) (U : List Nat) (hpol : StrongPolicy cfg) (s : St α
     cases hr : SvModel.copyAssign cfg c o w0 with
     | ok r w' => rw [← hdef, hr] at h; simp only [MOp.run, hr]; exact hs0.step hc h.basic
     | thrown e w' => rw [← hdef, hr] at h; simp only [MOp.run, hr]; exact hs0.step hc h.1.1
+  | swap c o =>
+    obtain ⟨hc, ho, hco, hN, hnull, hal⟩ := hv
+    rw [← hh0] at hN hnull
+    have hal0 : SwapAllocOK cfg w0 c o := by unfold SwapAllocOK at hal ⊢; rw [hh0]; exact hal
+    have h := SysAll.swap hs0 hc ho hco hN hnull hal0
+    cases hr : SvModel.swap cfg c o w0 with
+    | ok r w' => rw [hr] at h; simp only [MOp.run, hr]; exact h.1
+    | thrown e w' => rw [hr] at h; simp only [MOp.run, hr]; exact h.2.1
 
 /-- C02 / C03 / C04 / C06 over histories of several interacting containers -/
 theorem reachable_sys (cfg : Cfg) (U : List Nat) (hpol : StrongPolicy cfg) :
@@ -195,9 +208,10 @@ theorem sys_clauses {cfg : Cfg} {w : World α} {U A : List Nat} (h : SysAll cfg 
 /-- `σ c` = the values container `c` holds -/
 def Tracks (s : St α) (σ : Nat → List (Val α)) : Prop := ∀ c ∈ s.A, Holds s.w c (σ c)
 
-/-- the container a call writes to -/
-def MOp.target : MOp α → Nat
-  | .ctorVals c _ _ | .ctorCopy c _ _ | .dtor c | .on c _ | .copyAssign c _ => c
+/-- the containers a call writes to -/
+def MOp.targets : MOp α → List Nat
+  | .ctorVals c _ _ | .ctorCopy c _ _ | .dtor c | .on c _ | .copyAssign c _ => [c]
+  | .swap c o => [c, o]
 
 /-- what std::vector does, for a call that returns -/
 def MOp.spec (σ : Nat → List (Val α)) : MOp α → Nat → List (Val α)
@@ -206,6 +220,7 @@ def MOp.spec (σ : Nat → List (Val α)) : MOp α → Nat → List (Val α)
   | .dtor _ => σ
   | .on c op => upd σ c (op.spec (σ c))
   | .copyAssign c o => upd σ c (σ o)
+  | .swap c o => upd (upd σ c (σ o)) o (σ c)
 
 /-- did the call return? -/
 def returned (cfg : Cfg) (s : St α) (x : MOp α × List Nat) : Bool :=
@@ -219,7 +234,7 @@ def returned (cfg : Cfg) (s : St α) (x : MOp α × List Nat) : Bool :=
 theorem step_tracks (cfg : Cfg) (U : List Nat) (hpol : StrongPolicy cfg) (s : St α) (x : MOp α × List Nat) (σ : Nat → List (Val α))
     (hs : SysAll cfg s.w U s.A) (hv : x.1.valid cfg U s) (ht : Tracks s σ) :
     (returned cfg s x = true → Tracks (step cfg s x) (x.1.spec σ)) ∧
-    (returned cfg s x = false → ∃ σ', Tracks (step cfg s x) σ' ∧ ∀ d, d ≠ x.1.target → σ' d = σ d) := by
+    (returned cfg s x = false → ∃ σ', Tracks (step cfg s x) σ' ∧ ∀ d, d ∉ x.1.targets → σ' d = σ d) := by
   obtain ⟨op, f⟩ := x
   have hs0 := sysAll_faults hs f
   have ht0 : ∀ c ∈ s.A, Holds ({ s.w with faults := f } : World α) c (σ c) := fun c hc => holds_faults (ht c hc) f
@@ -292,7 +307,7 @@ theorem step_tracks (cfg : Cfg) (U : List Nat) (hpol : StrongPolicy cfg) (s : St
       rw [hr] at h; simp only [MOp.run, hr]
       refine ⟨(fun h' => by cases h'), fun _ => ?_⟩
       obtain ⟨ys, hy⟩ := h.1.vec.holds_exists
-      refine ⟨upd σ c ys, fun d hd => ?_, fun d hd => upd_other _ _ _ _ hd⟩
+      refine ⟨upd σ c ys, fun d hd => ?_, fun d hd => upd_other _ _ _ _ (by simpa [MOp.targets] using hd)⟩
       by_cases hdc : d = c
       · rw [hdc, upd_same]; exact hy
       · rw [upd_other _ _ _ _ hdc]; exact hs0.ok.holds_other hc h.1 hd hdc (ht0 d hd)
@@ -313,10 +328,37 @@ theorem step_tracks (cfg : Cfg) (U : List Nat) (hpol : StrongPolicy cfg) (s : St
       rw [← hdef, hr] at h; simp only [MOp.run, hr]
       refine ⟨(fun h' => by cases h'), fun _ => ?_⟩
       obtain ⟨ys, hy⟩ := h.1.1.vec.holds_exists
-      refine ⟨upd σ c ys, fun d hd => ?_, fun d hd => upd_other _ _ _ _ hd⟩
+      refine ⟨upd σ c ys, fun d hd => ?_, fun d hd => upd_other _ _ _ _ (by simpa [MOp.targets] using hd)⟩
       by_cases hdc : d = c
       · rw [hdc, upd_same]; exact hy
       · rw [upd_other _ _ _ _ hdc]; exact hs0.ok.holds_other hc h.1.1 hd hdc (ht0 d hd)
+  | swap c o =>
+    obtain ⟨hc, ho, hco, hN, hnull, hal⟩ := hv
+    have hoc : o ≠ c := fun e => hco e.symm
+    rw [← hh0] at hN hnull
+    have hal0 : SwapAllocOK cfg w0 c o := by unfold SwapAllocOK at hal ⊢; rw [hh0]; exact hal
+    have h := SysAll.swap hs0 hc ho hco hN hnull hal0
+    cases hr : SvModel.swap cfg c o w0 with
+    | ok r w' =>
+      rw [hr] at h; simp only [MOp.run, hr]
+      refine ⟨fun _ d hd => ?_, fun h' => by cases h'⟩
+      by_cases hdo : d = o
+      · rw [hdo]; simp only [MOp.spec, upd_same]; exact h.2.2.1 _ (ht0 c hc)
+      · by_cases hdc : d = c
+        · rw [hdc]; simp only [MOp.spec, upd_other _ _ _ _ hco, upd_same]; exact h.2.1 _ (ht0 o ho)
+        · simp only [MOp.spec, upd_other _ _ _ _ hdo, upd_other _ _ _ _ hdc]; exact h.2.2.2.1 d hd hdc hdo _ (ht0 d hd)
+    | thrown e w' =>
+      rw [hr] at h; simp only [MOp.run, hr]
+      refine ⟨(fun h' => by cases h'), fun _ => ?_⟩
+      obtain ⟨_, _, ⟨ys, hy⟩, ⟨zs, hz⟩, hoth, _⟩ := h
+      refine ⟨upd (upd σ c ys) o zs, fun d hd => ?_, fun d hd => ?_⟩
+      · by_cases hdo : d = o
+        · rw [hdo, upd_same]; exact hz
+        · by_cases hdc : d = c
+          · rw [hdc, upd_other _ _ _ _ hco, upd_same]; exact hy
+          · rw [upd_other _ _ _ _ hdo, upd_other _ _ _ _ hdc]; exact hoth d hd hdc hdo _ (ht0 d hd)
+      · have : d ≠ c ∧ d ≠ o := by simpa [MOp.targets] using hd
+        rw [upd_other _ _ _ _ this.2, upd_other _ _ _ _ this.1]
 
 /-- the std::vector side of a history in which every call returned -/
 def specAll : List (MOp α) → (Nat → List (Val α)) → Nat → List (Val α)
@@ -406,5 +448,25 @@ example : let s := run Ex.cfgT ⟨initWorld 2 3, []⟩ (exHist.take 10)
     (s.w.mem (s.w.hdr 1).data).take (s.w.hdr 1).size = [.obj (.val 1), .obj (.val 2), .obj (.val 3), .obj (.val 4)] ∧
     (s.w.mem (s.w.hdr 2).data).take (s.w.hdr 2).size = [.obj (.val 1), .obj (.val 2), .obj (.val 3), .obj (.val 4)] ∧
     s.w.live.length = 3 := by decide +kernel
+
+/-- non-vacuity for swap: the mixed inline/heap path both ways, the O(1) path, the element-wise path, and an element-wise
+    swap that throws half-way (both containers stay valid, one element is moved-from) -/
+def exSwap : List (MOp Int × List Nat) :=
+  [(.ctorVals 0 0 [1, 2, 3, 4], []), (.ctorVals 1 0 [5], []), (.swap 0 1, []), (.swap 1 0, []),
+   (.on 1 (.append [6, 7, 8]), []), (.swap 0 1, []), (.dtor 0, []), (.ctorVals 0 0 [9, 10], []), (.on 1 (.erase 0), []),
+   (.dtor 1, []), (.ctorVals 1 0 [11], []), (.swap 0 1, [2]), (.swap 0 1, []), (.dtor 0, []), (.dtor 1, []),
+   (.ctorVals 0 0 [1, 2, 3], []), (.ctorVals 1 0 [4, 5, 6, 7], []), (.swap 0 1, []), (.dtor 0, []), (.dtor 1, [])]
+
+example : (run Ex.cfgT ⟨initWorld 2 3, []⟩ exSwap).A = [] ∧ (run Ex.cfgT ⟨initWorld 2 3, []⟩ exSwap).w.live = [] := by decide +kernel
+/-- the throwing element-wise swap (12th call) -/
+example : let s := run Ex.cfgT ⟨initWorld 2 3, []⟩ (exSwap.take 12)
+    returned Ex.cfgT (run Ex.cfgT ⟨initWorld 2 3, []⟩ (exSwap.take 11)) (.swap 0 1, [2]) = false ∧
+    (s.w.mem (s.w.hdr 0).data).take (s.w.hdr 0).size = [.obj .husk, .obj (.val 10)] ∧
+    (s.w.mem (s.w.hdr 1).data).take (s.w.hdr 1).size = [.obj (.val 9)] := by decide +kernel
+/-- the O(1) swap (18th call): the two heap buffers change hands -/
+example : let s0 := run Ex.cfgT ⟨initWorld 2 3, []⟩ (exSwap.take 17)
+    let s := run Ex.cfgT ⟨initWorld 2 3, []⟩ (exSwap.take 18)
+    (s.w.hdr 0).data = (s0.w.hdr 1).data ∧ (s.w.hdr 1).data = (s0.w.hdr 0).data ∧ s.w.live.length = 2 ∧
+    (s.w.mem (s.w.hdr 0).data).take (s.w.hdr 0).size = [.obj (.val 4), .obj (.val 5), .obj (.val 6), .obj (.val 7)] := by decide +kernel
 
 end SvModel.System
